@@ -87,7 +87,7 @@ def is_unextendible_product_basis(vecs: list[np.ndarray], dims: list[int]) -> tu
         num_vecs = vecs.shape[0]
 
     # Split products.
-    vecs_split = np.array([is_product(vec, dims)[1] for vec in vecs])
+    vecs_split = [is_product(vec, dims)[1] for vec in vecs]
 
     # Acquire generator to m-partitions of [0, n-1].
     parts_unordered = set_partitions(list(range(num_vecs)), num_parties)
@@ -99,7 +99,7 @@ def is_unextendible_product_basis(vecs: list[np.ndarray], dims: list[int]) -> tu
             witness_found = True
             for i in range(num_parties):
                 # For the i-th party, acquire the matrix.
-                mat = np.stack([vecs_split[col, i, :] for col in part_ordered[i]])
+                mat = np.stack([vecs_split[col][i] for col in part_ordered[i]])
                 # Find the basis of the null space.
                 null_basis = null_space(mat)
                 # If null space is empty then break.
